@@ -331,7 +331,16 @@ pub fn select_once(case: &Value, container: &str, rng: &mut SmallRng) -> Value {
             }
         }
     });
-    let res = out.unwrap_or_else(|m| json!({"k": "panic", "msg": m}));
+    let mut res = out.unwrap_or_else(|m| json!({"k": "panic", "msg": m}));
+    // what the population says about itself (the `Population` trait the selectors are written against):
+    // its size is its number of members and it is empty exactly when that is zero
+    {
+        use ec_core::population::Population;
+        let (size, empty) = (Population::size(&pop), Population::is_empty(&pop));
+        if size != pop.len() || empty != pop.is_empty() {
+            res = json!({"k": "population_inconsistent", "members": pop.len(), "size": size, "is_empty": empty});
+        }
+    }
     let touched: BTreeSet<usize> = IND_CMPS.with(|l| l.borrow().iter().flat_map(|(a, b)| [*a, *b]).collect());
     let cmps: Vec<Value> = RES_CMPS.with(|l| l.borrow().iter().map(|(a, b, c)| json!([a, b, c])).collect());
     json!({"res": res, "touched": touched.into_iter().collect::<Vec<_>>(), "cmps": cmps})
